@@ -2,6 +2,7 @@ package vc
 
 import (
 	"fmt"
+	"go/types"
 	"sort"
 	"strings"
 
@@ -53,6 +54,41 @@ func (p *Prog) VerifyForbids(prop string) *FuncResult {
 			nfun++
 			for _, b := range fn.Blocks {
 				for _, in := range b.Instrs {
+					if fa, ok := in.(*ssa.FieldAddr); ok && len(fb.Writes) > 0 {
+						// a store through, or any other use than a load of, the address of a protected field
+						if pt, ok := fa.X.Type().Underlying().(*types.Pointer); ok {
+							if nt, ok := pt.Elem().(*types.Named); ok {
+								if st, ok := nt.Underlying().(*types.Struct); ok {
+									name := nt.Obj().Name() + "." + st.Field(fa.Field).Name()
+									for _, w := range fb.Writes {
+										if w != name {
+											continue
+										}
+										written := false
+										if refs := fa.Referrers(); refs != nil {
+											for _, r := range *refs {
+												switch u := r.(type) {
+												case *ssa.UnOp:
+													// load
+												case *ssa.Store:
+													if u.Addr == fa {
+														written = true
+													}
+												case *ssa.DebugRef:
+												default:
+													written = true // address escapes
+												}
+											}
+										}
+										if written {
+											hits = append(hits, hit{fn, "write " + name, p.Fset.Position(in.Pos()).String()})
+										}
+									}
+								}
+							}
+						}
+						continue
+					}
 					var cc *ssa.CallCommon
 					switch i := in.(type) {
 					case *ssa.Call:
@@ -86,7 +122,7 @@ func (p *Prog) VerifyForbids(prop string) *FuncResult {
 				}
 			}
 		}
-		what := strings.Join(append(append([]string{}, fb.Pkgs...), fb.Funcs...), ",")
+		what := strings.Join(append(append(append([]string{}, fb.Pkgs...), fb.Funcs...), fb.Writes...), ",")
 		if len(what) > 60 {
 			what = what[:60]
 		}
